@@ -1,4 +1,5 @@
 import XpmVerif.Proofs.InjectNode
+import XpmVerif.Proofs.IsDefault
 /-! C03, part 4: the signature at every depth.  A collision of raw identifiers under the ideal hash is a
     collision under *every* hash structure (`rawAt_hash_independent`): the two configurations cannot be told
     apart by any function computed from the hashed content, e.g. by the fully expanded stream. -/
@@ -110,8 +111,8 @@ theorem canon_transport (cfg1 cfg2 cfg1' cfg2' : Nat → List Nat) (mt1 mt2 : Na
       exact ⟨h.1, map_transport _ _ _ _ _ _ (fun x hx y hxy => ih x.2 (mem_keptSorted hx) y.2 hxy) h.2⟩
     | _ => simp [canon] at h
 
-theorem sigArgs_eq_map (cfg mt) (nd : Node) :
-    sigArgs cfg mt nd = ((sortBy (fun a b => bytesLe a.name b.name) nd.args).filter (included mt)).map
+theorem sigArgs_eq_map (cfg ceq mt) (nd : Node) :
+    sigArgs cfg ceq mt nd = ((sortBy (fun a b => bytesLe a.name b.name) nd.args).filter (included ceq mt)).map
       (fun a => (a.name, canon cfg mt a.value)) := by
   unfold sigArgs
   induction sortBy (fun a b => bytesLe a.name b.name) nd.args with
@@ -120,9 +121,21 @@ theorem sigArgs_eq_map (cfg mt) (nd : Node) :
     simp only [filterMap_cons, filter_cons, argSig]
     split <;> simp_all
 
-theorem sigArgs_transport (cfg1 cfg2 cfg1' cfg2' : Nat → List Nat) (mt1 mt2 : Nat → Option Bool)
+/-- the arguments kept by the skip rules do not depend on the comparison callback, if the two callbacks take
+    the same decisions on the arguments of the node. -/
+theorem sigArgs_congr_ceq (cfg : Nat → List Nat) (ceq ceq' : Nat → Nat → Bool) (mt : Nat → Option Bool) (nd : Node)
+    (h : ∀ a ∈ nd.args, included ceq mt a = included ceq' mt a) : sigArgs cfg ceq mt nd = sigArgs cfg ceq' mt nd := by
+  rw [sigArgs_eq_map, sigArgs_eq_map]
+  congr 1
+  apply filter_congr
+  intro a ha
+  exact h a ((sortBy_perm _ _).subset ha)
+
+theorem sigArgs_transport (cfg1 cfg2 cfg1' cfg2' : Nat → List Nat) (ceq1 ceq2 : Nat → Nat → Bool)
+    (mt1 mt2 : Nat → Option Bool)
     (hcfg : ∀ m m', cfg1 m = cfg2 m' → cfg1' m = cfg2' m') (nd1 nd2 : Node)
-    (h : sigArgs cfg1 mt1 nd1 = sigArgs cfg2 mt2 nd2) : sigArgs cfg1' mt1 nd1 = sigArgs cfg2' mt2 nd2 := by
+    (h : sigArgs cfg1 ceq1 mt1 nd1 = sigArgs cfg2 ceq2 mt2 nd2) :
+    sigArgs cfg1' ceq1 mt1 nd1 = sigArgs cfg2' ceq2 mt2 nd2 := by
   rw [sigArgs_eq_map, sigArgs_eq_map] at h ⊢
   refine map_transport _ _ _ _ _ _ ?_ h
   intro a _ b hab
@@ -144,56 +157,141 @@ theorem taskPart_transport (cfg1 cfg2 cfg1' cfg2' : Nat → List Nat)
     by_cases e1 : t1 = s1 <;> by_cases e2 : t2 = s2 <;> simp [e1, e2] at h ⊢
     exact hcfg _ _ h
 
+/-- the configurations of the declared default of an argument. -/
+def dfltAll (a : Arg) : List Nat := match a.default with | some d => refsAll d | none => []
+
+/-- **`hc'` separates the defaults that `hc` separates**: whenever `_is_default`, run with the hash structure
+    `hc'`, finds that a value `v` has the identifier of a configuration `d` of a declared default, so does it
+    when run with `hc`.  (The converse holds for every `hc'` when `hc` is ideal: `rawAt_hash_independent`.)
+    Vacuous when no declared default contains a configuration object (`DefaultsSeparated.of_noCfgDefaults`).
+    Without it the set of included arguments — hence the identifier — computed with a colliding `hc'` can differ
+    between two configurations that the ideal hash identifies. -/
+def DefaultsSeparated {D D' : Type} (hc : HC D) (hc' : HC D') (g : Graph) : Prop :=
+  ∀ (f : Nat) (s : List Nat) (n : Nat), ∀ a ∈ (g.node n).args, ∀ d ∈ dfltAll a, ∀ v,
+    ceqAt hc' g f (n :: s) d v = true → ceqAt hc g f (n :: s) d v = true
+
+/-- no declared default of the graph contains a configuration object. -/
+def NoCfgDefault (g : Graph) : Prop := ∀ n, ∀ a ∈ (g.node n).args, dfltAll a = []
+
+theorem DefaultsSeparated.of_noCfgDefaults {D D' : Type} (hc : HC D) (hc' : HC D') {g : Graph} (h : NoCfgDefault g) :
+    DefaultsSeparated hc hc' g := by
+  intro f s n a ha d hd; rw [h n a ha] at hd; cases hd
+
+theorem DefaultsSeparated.refl {D : Type} (hc : HC D) (g : Graph) : DefaultsSeparated hc hc g :=
+  fun _ _ _ _ _ _ _ _ h => h
+
+/-- the skip rules take the same decision with two callbacks that agree on (configuration of the default,
+    kept configuration of the value). -/
+theorem included_congr_dflt (ceq ceq' : Nat → Nat → Bool) (mt : Nat → Option Bool) (a : Arg)
+    (h : ∀ x ∈ dfltAll a, ∀ y ∈ refsVal mt a.value, ceq x y = ceq' x y) : included ceq mt a = included ceq' mt a := by
+  have hd : defaultOut ceq mt a = defaultOut ceq' mt a := by
+    unfold defaultOut
+    cases hdf : a.default with
+    | none => rfl
+    | some d =>
+      simp only
+      rw [isDefault_congr_ceq ceq ceq' mt d _ (fun x hx y hy =>
+        h x (by simp only [dfltAll, hdf]; exact hx) y (by rwa [refsVal_removeMeta] at hy))]
+  simp only [included, hd]
+
 /-- every node of the graph is well-typed for the class library `lib` (type identifier ↦ argument name ↦ type). -/
 def LibTyped (lib : List Nat → List Nat → STy) (g : Graph) : Prop :=
   ∀ n, noTag (g.node n).typeId ∧ ArgsTyped (lib (g.node n).typeId) g.mt (g.node n)
 
+theorem cfgAt_transport {D' : Type} (hc : HC Nat) (hemb : ∀ d, hc.emb d = [256 + d]) (hc' : HC D')
+    (g g' : Graph) (f f' : Nat) (S S' : List Nat) (hS : S.length < 2^64) (hS' : S'.length < 2^64)
+    (ih : ∀ m m', rawAt hc g f S m = rawAt hc g' f' S' m' → rawAt hc' g f S m = rawAt hc' g' f' S' m') :
+    ∀ m m', cfgAt hc g f S m = cfgAt hc g' f' S' m' → cfgAt hc' g f S m = cfgAt hc' g' f' S' m' := by
+  intro m m' hm
+  unfold cfgAt at hm ⊢
+  cases h1 : relIndex S m <;> cases h2 : relIndex S' m' <;> simp only [h1, h2] at hm ⊢
+  · rw [hemb, hemb] at hm
+    simp only [cons.injEq, and_true] at hm
+    have e : rawAt hc g f S m = rawAt hc g' f' S' m' := by omega
+    rw [ih m m' e]
+  · rw [hemb] at hm; simp only [cons.injEq] at hm; omega
+  · rw [hemb] at hm; simp only [cons.injEq] at hm; omega
+  · rename_i k k'
+    simp only [cons.injEq, true_and] at hm
+    have b1 := relIndex_le _ _ _ h1
+    have b2 := relIndex_le _ _ _ h2
+    rw [pack8_inj (by omega) (by omega) hm]
+
+/-- with the ideal hash, a digest token is never a cycle reference: `ceqAt` is equality of `cfgAt` for values
+    that are not on the stack. -/
+theorem included_transport {D' : Type} (hc : HC Nat) (hc' : HC D') (g : Graph) (f : Nat) (S : List Nat)
+    (hsep : ∀ a ∈ (g.node (S.headD 0)).args, ∀ d ∈ dfltAll a, ∀ v, ceqAt hc' g f S d v = true → ceqAt hc g f S d v = true)
+    (htr : ∀ m m', cfgAt hc g f S m = cfgAt hc g f S m' → cfgAt hc' g f S m = cfgAt hc' g f S m') :
+    ∀ a ∈ (g.node (S.headD 0)).args, included (ceqAt hc g f S) g.mt a = included (ceqAt hc' g f S) g.mt a := by
+  intro a ha
+  apply included_congr_dflt
+  intro x hx y _
+  rw [Bool.eq_iff_iff]
+  constructor
+  · intro h
+    simp only [ceqAt, ctxEq, Bool.and_eq_true, beq_iff_eq] at h ⊢
+    exact ⟨h.1, htr x y h.2⟩
+  · exact hsep a ha x hx y
+
+theorem rawAt_hash_independent_aux {D' : Type} (hc : HC Nat) (hinj : ∀ a b, hc.H a = hc.H b → a = b)
+    (hemb : ∀ d, hc.emb d = [256 + d]) (hc' : HC D') (lib : List Nat → List Nat → STy) :
+    ∀ (N f f' : Nat), f ≤ N → f' ≤ N → ∀ (g g' : Graph) (s s' : List Nat) (n n' : Nat),
+      LibTyped lib g → LibTyped lib g' → DefaultsSeparated hc hc' g → DefaultsSeparated hc hc' g' →
+      f + s.length < 2^64 → f' + s'.length < 2^64 →
+      rawAt hc g f s n = rawAt hc g' f' s' n' → rawAt hc' g f s n = rawAt hc' g' f' s' n' := by
+  intro N
+  induction N with
+  | zero =>
+    intro f f' hf hf' g g' s s' n n' _ _ _ _ _ _ _
+    have : f = 0 := by omega
+    have : f' = 0 := by omega
+    subst_vars
+    simp [rawAt]
+  | succ N ih =>
+    intro f f' hf hf' g g' s s' n n' hg hg' hd hd' hs hs' h
+    cases f with
+    | zero =>
+      cases f' with
+      | zero => simp [rawAt]
+      | succ f' =>
+        rw [rawAt_succ] at h
+        have := hinj _ _ h
+        simp [nodeStream] at this
+    | succ f =>
+      cases f' with
+      | zero =>
+        rw [rawAt_succ] at h
+        have := hinj _ _ h
+        simp [nodeStream] at this
+      | succ f' =>
+        have step := rawAt_inj_step hc hinj hemb (lib (g.node n).typeId) (lib (g'.node n').typeId) g g' f f' s s' n n'
+          (by omega) (by omega) (hg n).1 (hg' n').1 (fun e => by rw [e]) (hg n).2 (hg' n').2 h
+        have hl : (n :: s).length < 2^64 := by simp; omega
+        have hl' : (n' :: s').length < 2^64 := by simp; omega
+        have hcfg := cfgAt_transport hc hemb hc' g g' f f' (n :: s) (n' :: s') hl hl'
+          (fun m m' e => ih f f' (by omega) (by omega) g g' _ _ m m' hg hg' hd hd' (by simp; omega) (by simp; omega) e)
+        have hcfg1 := cfgAt_transport hc hemb hc' g g f f (n :: s) (n :: s) hl hl
+          (fun m m' e => ih f f (by omega) (by omega) g g _ _ m m' hg hg hd hd (by simp; omega) (by simp; omega) e)
+        have hcfg2 := cfgAt_transport hc hemb hc' g' g' f' f' (n' :: s') (n' :: s') hl' hl'
+          (fun m m' e => ih f' f' (by omega) (by omega) g' g' _ _ m m' hg' hg' hd' hd' (by simp; omega) (by simp; omega) e)
+        have hi1 := included_transport hc hc' g f (n :: s) (fun a ha d hdd v => hd f s n a ha d hdd v) hcfg1
+        have hi2 := included_transport hc hc' g' f' (n' :: s') (fun a ha d hdd v => hd' f' s' n' a ha d hdd v) hcfg2
+        simp only [headD_cons] at hi1 hi2
+        rw [rawAt_succ, rawAt_succ, nodeStream_eq, nodeStream_eq, step.2.1,
+          taskPart_transport _ _ _ _ hcfg _ _ _ _ step.1,
+          ← sigArgs_congr_ceq _ _ _ _ _ hi1, ← sigArgs_congr_ceq _ _ _ _ _ hi2,
+          sigArgs_transport _ _ _ _ _ _ _ _ hcfg _ _ step.2.2]
+
 /-- **signature at every depth**: equal raw identifiers under the ideal hash ⇒ equal raw identifiers under
-    every hash structure `hc'` (no assumption on `hc'`). -/
+    every hash structure `hc'` that separates the defaults the ideal hash separates (`DefaultsSeparated`; no
+    other assumption on `hc'`, and none at all when no declared default contains a configuration object). -/
 theorem rawAt_hash_independent {D' : Type} (hc : HC Nat) (hinj : ∀ a b, hc.H a = hc.H b → a = b)
     (hemb : ∀ d, hc.emb d = [256 + d]) (hc' : HC D') (lib : List Nat → List Nat → STy) :
     ∀ (f f' : Nat) (g g' : Graph) (s s' : List Nat) (n n' : Nat), LibTyped lib g → LibTyped lib g' →
+      DefaultsSeparated hc hc' g → DefaultsSeparated hc hc' g' →
       f + s.length < 2^64 → f' + s'.length < 2^64 →
-      rawAt hc g f s n = rawAt hc g' f' s' n' → rawAt hc' g f s n = rawAt hc' g' f' s' n' := by
-  intro f
-  induction f with
-  | zero =>
-    intro f' g g' s s' n n' _ _ _ _ h
-    cases f' with
-    | zero => simp [rawAt]
-    | succ f' =>
-      rw [rawAt_succ] at h
-      have := hinj _ _ h
-      simp [nodeStream] at this
-  | succ f ih =>
-    intro f' g g' s s' n n' hg hg' hs hs' h
-    cases f' with
-    | zero =>
-      rw [rawAt_succ] at h
-      have := hinj _ _ h
-      simp [nodeStream] at this
-    | succ f' =>
-      have step := rawAt_inj_step hc hinj hemb (lib (g.node n).typeId) (lib (g'.node n').typeId) g g' f f' s s' n n'
-        (by omega) (by omega) (hg n).1 (hg' n').1 (fun e => by rw [e]) (hg n).2 (hg' n').2 h
-      have hcfg : ∀ m m', cfgAt hc g f (n :: s) m = cfgAt hc g' f' (n' :: s') m' →
-          cfgAt hc' g f (n :: s) m = cfgAt hc' g' f' (n' :: s') m' := by
-        intro m m' hm
-        unfold cfgAt at hm ⊢
-        cases h1 : relIndex (n :: s) m <;> cases h2 : relIndex (n' :: s') m' <;> simp only [h1, h2] at hm ⊢
-        · rw [hemb, hemb] at hm
-          simp only [cons.injEq, and_true] at hm
-          have e : rawAt hc g f (n :: s) m = rawAt hc g' f' (n' :: s') m' := by omega
-          rw [ih f' g g' (n :: s) (n' :: s') m m' hg hg' (by simp; omega) (by simp; omega) e]
-        · rw [hemb] at hm; simp only [cons.injEq] at hm; omega
-        · rw [hemb] at hm; simp only [cons.injEq] at hm; omega
-        · rename_i k k'
-          simp only [cons.injEq, true_and] at hm
-          have b1 := relIndex_le _ _ _ h1
-          have b2 := relIndex_le _ _ _ h2
-          simp only [length_cons] at b1 b2
-          rw [pack8_inj (by omega) (by omega) hm]
-      rw [rawAt_succ, rawAt_succ, nodeStream_eq, nodeStream_eq, step.2.1,
-        taskPart_transport _ _ _ _ hcfg _ _ _ _ step.1, sigArgs_transport _ _ _ _ _ _ hcfg _ _ step.2.2]
+      rawAt hc g f s n = rawAt hc g' f' s' n' → rawAt hc' g f s n = rawAt hc' g' f' s' n' :=
+  fun f f' => rawAt_hash_independent_aux hc hinj hemb hc' lib (max f f') f f' (Nat.le_max_left _ _) (Nat.le_max_right _ _)
 
 /-- permutations of images transport along a pointwise implication. -/
 theorem perm_map_transport {γ δ : Type} (f g : Nat → γ) (f' g' : Nat → δ)
@@ -223,11 +321,13 @@ theorem fullId_hash_independent {D' : Type} (hc : HC Nat) (hinj : ∀ a b, hc.H 
     (trans : ∀ a b c, hc'.le a b = true → hc'.le b c = true → hc'.le a c = true)
     (antisymm : ∀ a b, hc'.le a b = true → hc'.le b a = true → a = b)
     (lib : List Nat → List Nat → STy) (g1 g2 : Graph)
-    (hg1 : LibTyped lib g1) (hg2 : LibTyped lib g2) (hz1 : g1.size + 1 < 2^64) (hz2 : g2.size + 1 < 2^64)
+    (hg1 : LibTyped lib g1) (hg2 : LibTyped lib g2)
+    (hd1 : DefaultsSeparated hc hc' g1) (hd2 : DefaultsSeparated hc hc' g2)
+    (hz1 : g1.size + 1 < 2^64) (hz2 : g2.size + 1 < 2^64)
     (n1 n2 : Nat) (h : fullId hc g1 n1 = fullId hc g2 n2) : fullId hc' g1 n1 = fullId hc' g2 n2 := by
   obtain ⟨hraw, hpre, hinit⟩ := fullId_inj hc hinj hemb g1 g2 n1 n2 h
   have tr : ∀ a b, rawId hc g1 a = rawId hc g2 b → rawId hc' g1 a = rawId hc' g2 b := fun a b hab =>
-    rawAt_hash_independent hc hinj hemb hc' lib (g1.size + 1) (g2.size + 1) g1 g2 [] [] a b hg1 hg2
+    rawAt_hash_independent hc hinj hemb hc' lib (g1.size + 1) (g2.size + 1) g1 g2 [] [] a b hg1 hg2 hd1 hd2
       (by simpa using hz1) (by simpa using hz2) hab
   have e1 := tr n1 n2 hraw
   have hp : (collectPreTasks g1 n1).map (rawId hc g1) ~ (collectPreTasks g2 n2).map (rawId hc g2) :=
